@@ -72,6 +72,7 @@ type GhostSet struct {
 	E       *Expr
 	Src     string
 	AtEntry bool
+	AtReturn bool // `set G = E at return`: evaluated at every return, `result`/`resultK` name the returned values
 	Callee  string
 	Nth     int
 	File    string
@@ -319,9 +320,9 @@ func (cs *ContractSet) loadContractFile(path, pkgName string) error {
 			if cur == nil {
 				return fail("set outside func")
 			}
-			m := regexp.MustCompile(`^([A-Za-z_][A-Za-z0-9_]*)\s*=\s*(.*?)\s+(at entry|after call (\S+) (\d+))$`).FindStringSubmatch(rest)
+			m := regexp.MustCompile(`^([A-Za-z_][A-Za-z0-9_]*)\s*=\s*(.*?)\s+(at entry|at return|after call (\S+) (\d+))$`).FindStringSubmatch(rest)
 			if m == nil {
-				return fail("set NAME = EXPR (at entry | after call KEY N)")
+				return fail("set NAME = EXPR (at entry | at return | after call KEY N)")
 			}
 			e, err := parseSpecExpr(m[2])
 			if err != nil {
@@ -330,6 +331,8 @@ func (cs *ContractSet) loadContractFile(path, pkgName string) error {
 			gs := GhostSet{Name: m[1], E: e, Src: m[2], File: path, Line: it.line}
 			if m[3] == "at entry" {
 				gs.AtEntry = true
+			} else if m[3] == "at return" {
+				gs.AtReturn = true
 			} else {
 				gs.Callee = m[4]
 				gs.Nth, _ = strconv.Atoi(m[5])
